@@ -1,6 +1,91 @@
-(* Runner for property C11: wire arguments -> model -> wire result. Filled in by the C11 model. *)
+(* Runner for property C11: wire arguments -> schema model -> wire result.
+     validate x<schema id> <json>   -> 1 / 0 / ( err undetermined ) / ( err unknown-schema ) / ( err bad-json )
+     refs x<path>                   -> ( x<ref> ... )       references of the shipped file that do not resolve
+     match x<pattern text> x<str>   -> 1 / 0                one of the shipped patterns on a string
+     format x<name> x<str>          -> 1 / 0                date / uuid
+     files                          -> ( x<path> ... )
+   JSON on the wire:  z | t | f | ( n <mantissa> <exponent> ) | ( s x<utf8> ) | ( a ( v ... ) ) |
+                      ( o ( ( x<key> v ) ... ) ) *)
 From Coq Require Import ZArith List String Bool.
-From Verif Require Import Base.Wire.
+From Verif Require Import Base.Wire Schema.Regex Schema.Schema Schema.Validate Schema.WellFormed.
+From Verif Require Import Gen.Schemas.
 Import ListNotations.
+Open Scope Z_scope.
 
-Definition run_c11 (args : list V) : list V := [verr "not-implemented"].
+Fixpoint json_of_v (v : V) : option json :=
+  match v with
+  | VS s => if eqb_bytes s (bs "z") then Some JNull
+            else if eqb_bytes s (bs "t") then Some (JBool true)
+            else if eqb_bytes s (bs "f") then Some (JBool false)
+            else None
+  | VL [VS tag; VI m; VI e] => if eqb_bytes tag (bs "n") then Some (JNum m e) else None
+  | VL [VS tag; VS s] => if eqb_bytes tag (bs "s") then Some (JStr s) else None
+  | VL [VS tag; VL items] =>
+      if eqb_bytes tag (bs "a") then
+        option_map JArr
+          ((fix go (l : list V) : option (list json) :=
+              match l with
+              | [] => Some []
+              | x :: r => match json_of_v x, go r with
+                          | Some a, Some b => Some (a :: b)
+                          | _, _ => None
+                          end
+              end) items)
+      else if eqb_bytes tag (bs "o") then
+        option_map JObj
+          ((fix go (l : list V) : option (list (bytes * json)) :=
+              match l with
+              | [] => Some []
+              | VL [VS k; x] :: r => match json_of_v x, go r with
+                                     | Some a, Some b => Some ((k, a) :: b)
+                                     | _, _ => None
+                                     end
+              | _ :: _ => None
+              end) items)
+      else None
+  | _ => None
+  end.
+
+Definition shipped_env : env := env_of_files shipped_schemas.
+
+(* nesting depth budget: far above what the shipped schemas and any document need *)
+Definition c11_fuel : nat := 400.
+
+Definition vbytes_list (l : list bytes) : V := VL (map VS l).
+
+Definition run_c11 (args : list V) : list V :=
+  match args with
+  | o :: rest =>
+    let op := opname o in
+    let a1 := nth 0 rest (VI 0) in
+    let a2 := nth 1 rest (VI 0) in
+    if String.eqb op "validate" then
+      match json_of_v a2 with
+      | None => [verr "bad-json"]
+      | Some j =>
+        match lookup_ref shipped_env (vs_ a1, []) with
+        | None => [verr "unknown-schema"]
+        | Some _ => match validate_id shipped_env c11_fuel (vs_ a1) j with
+                    | Some b => [VB b]
+                    | None => [verr "undetermined"]
+                    end
+        end
+      end
+    else if String.eqb op "refs" then
+      match lookup (vs_ a1) shipped_schemas with
+      | Some s => [vbytes_list (unresolved_refs shipped_env s)]
+      | None => [verr "unknown-file"]
+      end
+    else if String.eqb op "match" then
+      match find (fun p => eqb_bytes (p_src p) (vs_ a1)) shipped_patterns with
+      | Some p => [VB (pattern_matches p (vs_ a2))]
+      | None => [verr "unknown-pattern"]
+      end
+    else if String.eqb op "format" then
+      if eqb_bytes (vs_ a1) (bs "date") then [VB (format_date (vs_ a2))]
+      else if eqb_bytes (vs_ a1) (bs "uuid") then [VB (format_uuid (vs_ a2))]
+      else [verr "unknown-format"]
+    else if String.eqb op "files" then [vbytes_list (map fst shipped_schemas)]
+    else [verr "unknown-c11-op"]
+  | [] => [verr "unknown-c11-op"]
+  end.
